@@ -7,18 +7,17 @@
    Level numbers are those of Spec.lvl/prec:
      0 parseExpression             1 parseAssignmentExpression
      2 parseConditionalExpression  3..8 parseLogicalOr..parseEquality
-     9 parseRelationalExpression   10..12 parseShift/Additive/Multiplicative
+     9 parseRelationalExpression (a loop, too)   10..12 parseShift/Additive/Multiplicative
      13 parseUnaryExpression       14 parsePostfixExpression
      15 parseLeftHandSideExpressionAllowCall
      16 parseLeftHandSideExpression   17 parsePrimaryExpression
      18 parseNewExpression
    [noin] is "p.scope.allowIn == false".
 
-   Deviation reproduced on purpose: parseRelationalExpression recurses on its
-   RIGHT operand (Right: p.parseRelationalExpression()), so a<b<c is read as
-   a<(b<c).  (The middle operand of ?: is parsed with allowIn = true, ES5 11.12,
-   since /repo 18fccf6; the right operand of a relational operator inherits the
-   no-in restriction, ES5 11.8 RelationalExpressionNoIn, since /repo 24f7b9d.)
+   No deviation from the ES5 grammar is left in this part of otto: since /repo
+   e62d085 parseRelationalExpression loops like the other binary levels
+   (left-associative, 11.8), since 24f7b9d its operands inherit the no-in
+   restriction, since 18fccf6 the middle operand of ?: is parsed with allowIn = true.
 
    One refactoring: Go's AllowCall loop {. [ (} after a primary/new head is
    written as "member level first (loop {. [}), then loop {. [ (}".  The two are
@@ -30,16 +29,21 @@ Import ListNotations.
 
 Definition parser := list ptok -> option (expr * list ptok).
 
-(* left := next(); for p.token in level k { left = Binary{tkn, left, next()} } *)
-Fixpoint bin_loop (n k : nat) (next : parser) (left : expr) (ts : list ptok) : option (expr * list ptok) :=
+Definition is_in (o : binop) : bool := match o with In => true | _ => false end.
+
+(* left := next(); for p.token in level k { left = Binary{tkn, left, next()} }
+   [noin]: the loop of parseRelationalExpression does not take `in` when
+   p.scope.allowIn is false (`in` belongs to level 9 only, so the test is vacuous
+   for the loops of the other levels) *)
+Fixpoint bin_loop (n k : nat) (noin : bool) (next : parser) (left : expr) (ts : list ptok) : option (expr * list ptok) :=
   match n with
   | O => None
   | S n =>
     match ts with
     | (_, TOp o) :: ts' =>
-        if Nat.eqb (lvl o) k then
+        if (if noin && is_in o then false else Nat.eqb (lvl o) k) then
           match next ts' with
-          | Some (r, ts'') => bin_loop n k next (EBin o left r) ts''
+          | Some (r, ts'') => bin_loop n k noin next (EBin o left r) ts''
           | None => None
           end
         else Some (left, ts)
@@ -97,15 +101,12 @@ Definition unop_of_tok (t : tok) : option unop :=
   | _ => None
   end.
 
-Definition is_in (o : binop) : bool := match o with In => true | _ => false end.
-
-Inductive kind := KLoop | KAsg | KCond | KRel | KUn | KPost | KCall | KMem | KPrim | KNew | KNone.
+Inductive kind := KLoop | KAsg | KCond | KUn | KPost | KCall | KMem | KPrim | KNew | KNone.
 Definition kind_of (k : nat) : kind :=
   match k with
   | 0 => KLoop | 1 => KAsg | 2 => KCond
   | 3 | 4 | 5 | 6 | 7 | 8 => KLoop
-  | 9 => KRel
-  | 10 | 11 | 12 => KLoop
+  | 9 | 10 | 11 | 12 => KLoop
   | 13 => KUn | 14 => KPost | 15 => KCall | 16 => KMem | 17 => KPrim | 18 => KNew
   | _ => KNone
   end.
@@ -115,7 +116,7 @@ Definition step (self : nat -> bool -> parser) (k : nat) (noin : bool) (ts : lis
   match kind_of k with
   | KLoop =>
       match self (S k) noin ts with
-      | Some (l, r) => bin_loop (S (length r)) k (self (S k) noin) l r
+      | Some (l, r) => bin_loop (S (length r)) k noin (self (S k) noin) l r
       | None => None
       end
   | KAsg =>
@@ -134,15 +135,6 @@ Definition step (self : nat -> bool -> parser) (k : nat) (noin : bool) (ts : lis
               match self 1 noin r' with Some (b, r'') => Some (ECond c a b, r'') | None => None end
           | _ => None
           end
-      | x => x
-      end
-  | KRel =>
-      match self 10 noin ts with
-      | Some (l, (nl, TOp o) :: r) =>
-          if Nat.eqb (lvl o) 9 && negb (noin && is_in o) then
-            (* the right operand inherits the no-in restriction (since /repo 24f7b9d) *)
-            match self 9 noin r with Some (e, r') => Some (EBin o l e, r') | None => None end
-          else Some (l, (nl, TOp o) :: r)
       | x => x
       end
   | KUn =>
